@@ -183,6 +183,14 @@ def returns_of(fn):
 
 
 def extract_returns(f=None):
+    gen.SHOW_TARGS = True
+    try:
+        return _extract_returns(f)
+    finally:
+        gen.SHOW_TARGS = False
+
+
+def _extract_returns(f=None):
     f = f or gen.facts()
     out = {}
     # generic lambdas (`[](const auto& v) { return v.name == ...; }`) only exist as templates: their dependent
@@ -246,6 +254,14 @@ def check_returns(chk):
 
 
 def extract(f=None):
+    gen.SHOW_TARGS = True
+    try:
+        return _extract(f)
+    finally:
+        gen.SHOW_TARGS = False
+
+
+def _extract(f=None):
     f = f or gen.facts()
     sites = {}
     for fc in gen.format_calls(f):
